@@ -39,12 +39,14 @@ class BasePickerModel(ABC):
         # if depth is too large
         if isinstance(depth, (int, np.integer)):
             depth = (depth, depth, depth)
+        _depth = [min(s, d) for s, d in zip(image.shape, depth)]
         task: da.Array = image.map_overlap(
             self._pick_in_chunk_wrapped,
             **params,
             **kwargs,
+            _depth=_depth,
             # dask parameters
-            depth=[min(s, d) for s, d in zip(image.shape, depth)],
+            depth=_depth,
             trim=False,
             boundary=boundary,
             dtype=object,
@@ -52,16 +54,25 @@ class BasePickerModel(ABC):
         )
         boxes: Sequence[MoleculesBox] = task.compute().ravel()
         mole = Molecules.concat([box.to_molecules() for box in boxes])
-        mole._pos = (mole._pos - depth) * scale
+        mole._pos = (mole._pos - _depth) * scale
         return mole
 
     def _pick_in_chunk_wrapped(
         self,
         image: NDArray[np.float32],
         block_info: dict,
+        _depth: Sequence[int],
         **kwargs,
     ) -> NDArray[np.object_]:
         pos, quats, features = self.pick_in_chunk(image, **kwargs)
+        # The margins of the chunk overlap with the adjacent chunks (or are the padded
+        # outside of the image). Molecules there are picked in the chunk they belong to.
+        lower = np.asarray(_depth) - 0.5
+        upper = np.asarray(image.shape) - np.asarray(_depth) - 0.5
+        in_chunk = np.all((lower <= pos) & (pos < upper), axis=1)
+        pos = pos[in_chunk]
+        quats = quats[in_chunk]
+        features = {k: v[in_chunk] for k, v in features.items()}
         locs: list[tuple[int, int]] = block_info[None]["array-location"]
         for i, (start, _) in enumerate(locs):
             pos[:, i] += start
